@@ -1521,6 +1521,12 @@ def r1_4(rep):
             rep.need(pushes, "emission (`result.push(..)`) in %s" % b.path)
             late = [x for x in pushes if x["_i"] < c["_i"]]
             rep.check(not late, "%s:emit-after-check@%s" % (what, fn), "every emission follows the seen-check", b.loc(c))
+    # ---- the key that is deduplicated / counted is the name that is emitted -------------------------------
+    for b, c in [c for p in _method(prog, "seen_var") for c in ix.callers_of(p)]:
+        ids = [x for x in b.calls() if x.get("callee") == RUST_IDENT and b.canon(x["args"][0], 6) == b.canon(c["args"][0], 6)]
+        rep.check(bool(ids), "var:key-is-emitted-name@%s" % short(b.path),
+                  "the key of the seen-set (`%s`) is the string that becomes the item's identifier" %
+                  b.canon(c["args"][0], 2)[:60], b.loc(c))
     # ---- overload numbers ------------------------------------------------------------------------------
     on = [c for p in _method(prog, "overload_number") for c in ix.callers_of(p)]
     rep.need(on, "calls of CodegenResult::overload_number")
@@ -1534,6 +1540,12 @@ def r1_4(rep):
         rep.check(ok, "overload:suffix@%s" % fn, detail, b.loc(c))
         if ok:
             appenders[b.path] = (b, lid, arg)
+        # the counted (and suffixed) string is what becomes the identifier
+        if arg.get("k") == "Local":
+            ctors = [x for x in b.calls() if x.get("callee") in RAW_CTORS + (RUST_IDENT,) and _flows_from(b, x["args"][0], arg["id"])]
+            rep.check(bool(ctors), "overload:counted-name-is-emitted@%s" % fn,
+                      "the string whose overloads are counted (`%s`) flows into the identifier constructor" % arg.get("name"),
+                      b.loc(c))
     # ---- the name Function::codegen emits is the one Method::codegen_method calls ----------------------
     fcg = prog.impl_fn("codegen::CodeGenerator", "ir::function::Function", "codegen")
     rep.need(fcg, "<Function as CodeGenerator>::codegen")
@@ -1592,6 +1604,21 @@ def r1_4(rep):
             loops = [n for n in b.nodes if n["k"] in ("While", "Loop") and any(x is c for c in contains for x in b.walk(n))]
             rep.check(bool(loops), "method:rename-loop@%s" % fn, "a taken name is renamed in a loop that re-tests the candidate",
                       b.loc(b.root))
+
+
+def _flows_from(b, e, lid, depth=0):
+    """does the value of expression e depend on local `lid` (through immutable lets and destructuring)?"""
+    if depth > 6:
+        return False
+    for x in b.walk(e):
+        if x["k"] == "Local":
+            if x["id"] == lid:
+                return True
+            d = b.local_def.get(x["id"])
+            if d and d[0][0] in ("let", "letcond") and d[0][1].get("init") is not None:
+                if _flows_from(b, d[0][1]["init"], lid, depth + 1):
+                    return True
+    return False
 
 
 def _bound_local(b, c):
@@ -1719,13 +1746,22 @@ def r1_5(rep):
                 found.setdefault((t[1], b.path), []).append(b.loc(t[2]))
     rep.need(n_sites, "quote! sites")
     for (name, path), locs in sorted(found.items()):
+        rel = None
+        if " via " in name:
+            name, rel = name.split(" ")[0], name.split("`")[1]
         ns = "value" if name in vns else "type"
-        rep.bad("unqualified:%s@%s" % (name.split(" ")[0] + ("(relative)" if " via " in name else ""), short(path)),
-                "`%s` is emitted without a leading `::` (%d place(s): %s); a C %s named `%s` in the same module shadows the "
-                "prelude item and the generated code no longer compiles" %
-                (name, len(locs), ", ".join(locs[:4]), "struct/typedef/enum" if ns == "type" else "function/variable/enumerator",
-                 name), locs[0])
+        what = "struct/typedef/enum" if ns == "type" else "function/variable/enumerator"
+        if rel:
+            rep.bad("unqualified:%s(relative)@%s" % (name, short(path)),
+                    "`%s%s` is emitted as a relative path (%d place(s): %s): it resolves through whatever `%s` names in the "
+                    "generated module (a C++ `namespace std` under --enable-cxx-namespaces, any C item called `%s`) and "
+                    "ignores --use-core" % (rel, name, len(locs), ", ".join(locs[:4]), rel.rstrip(":"), rel.rstrip(":")), locs[0])
+        else:
+            rep.bad("unqualified:%s@%s" % (name, short(path)),
+                    "`%s` is emitted without a leading `::` (%d place(s): %s); a C %s named `%s` in the same module shadows "
+                    "the prelude item and the generated code no longer compiles" %
+                    (name, len(locs), ", ".join(locs[:4]), what, name), locs[0])
     for (name, path), locs in sorted(good.items()):
-        if (name, path) not in found:
+        if (name, path) not in found and not any(k[0].startswith(name + " via") and k[1] == path for k in found):
             rep.ok("qualified:%s@%s" % (name, short(path)), "%d use(s), all path-qualified" % len(locs), locs[0])
     rep.note("quote sites scanned", n_sites)
